@@ -514,7 +514,7 @@ Lemma take_until_go_body_len tys l acc :
   (length (snd (fst (take_until_go tys l acc))) <= length l + length acc)%nat.
 Proof.
   revert acc; induction l as [|t l IH]; intro acc; simpl.
-  - rewrite rev_length. destruct acc; simpl; lia.
+  - rewrite rev_length. lia.
   - destruct (existsb (tt_eqb (tty t)) tys); simpl.
     + rewrite rev_length. lia.
     + specialize (IH (t :: acc)). simpl in IH. lia.
